@@ -51,8 +51,8 @@ GROUPS.append(dict(cls='P', tu='C10_ms_init_p.c', canary='real', unwind=1, timeo
     trusted=['stub sizes/init of the single-stream decoder (C11); the init stub asserts that every state it is handed lies inside get_size() bytes'],
     what='multistream decoder get_size/init for any stream and channel counts (loop contracts on the mapping copy and the two stream loops): illegal counts and layouts rejected, layout stored as given, one decoder per stream, coupled first, states back to back inside get_size()'))
 
-for _fam, _unw, _nc in ((0, 17, 2), (1, 17, 2), (2, 257, 3), (255, 257, 1), (None, 17, 1)):
-  GROUPS.append(dict(name='surround_layouts_' + ('other' if _fam is None else 'fam%d' % _fam), defines=([] if _fam is None else ['-DVERIF_FAMILY=%d' % _fam]), cls='F', tu='C10_surround_layout.c', entry='h_surround_layout', dfcc=False, canary='real', expect_canaries=_nc, unwind=_unw, timeout=1200,
+for _fam, _unw, _nc in ((0, 17, 2), (1, 17, 2), (2, 257, 3), (255, 257, 1), (None, 17, 1)):  # family 2: 403 s of SAT, thorough tier
+  GROUPS.append(dict(name='surround_layouts_' + ('other' if _fam is None else 'fam%d' % _fam), defines=([] if _fam is None else ['-DVERIF_FAMILY=%d' % _fam]), tier=('thorough' if _fam == 2 else 'quick'), cls='F', tu='C10_surround_layout.c', entry='h_surround_layout', dfcc=False, canary='real', expect_canaries=_nc, unwind=_unw, timeout=1200,
       replace_calls=['opus_multistream_encoder_init_impl:verif_init_impl'],
       functions=['opus_multistream_surround_encoder_init', 'opus_multistream_surround_encoder_get_size', 'opus_multistream_encoder_get_size', 'validate_ambisonics', 'isqrt32'],
       trusted=['recording stub of opus_multistream_encoder_init_impl (calls redirected; the real one is checked in ms_encoder_init*)', 'stub sizes of the single-stream encoder'],
@@ -68,7 +68,7 @@ for _est, _ech, _etier, _en in ((2, 3, 'quick', 'ms_encoder_init'), (3, 4, 'thor
       bounds='<= %d streams, <= %d channels (counts otherwise any int), mapping bytes symbolic' % (_est, _ech),
       what='multistream encoder creation: illegal counts and invalid layouts (entry beyond the coded channels, stream or stream side without input channel) rejected before any stream is touched; otherwise one encoder per stream, coupled first, back to back inside get_size(), documented defaults, a failing stream initialiser reported'))
 for _sch in range(1, 9):
-  GROUPS.append(dict(_EI, name='ms_surround_init_fam1_c%d' % _sch, entry='h_ms_surround_init', expect_canaries=(2 if _sch >= 6 else 1), unwind=10, defines=['-DVERIF_SCH=%d' % _sch], tier=('quick' if _sch in (3, 6, 8) else 'thorough'),
+  GROUPS.append(dict(_EI, name='ms_surround_init_fam1_c%d' % _sch, entry='h_ms_surround_init', expect_canaries=(2 if _sch >= 6 else 1), unwind=10, defines=['-DVERIF_SCH=%d' % _sch], tier=('quick' if _sch in (3, 6) else 'thorough'),
       functions=['opus_multistream_surround_encoder_get_size', 'opus_multistream_surround_encoder_init', 'opus_multistream_encoder_init_impl', 'validate_layout', 'validate_encoder_layout', 'ms_get_preemph_mem', 'ms_get_window_mem'],
       bounds='mapping family 1, %d channels (one group per channel count 1..8), rate and application symbolic' % _sch,
       what='surround creation with the real tables: every library-chosen layout passes the library\'s own validation, LFE flag on the last mono stream only, analysis memory inside the size the surround size query reports and cleared'))
